@@ -833,42 +833,10 @@ func checkEndOnExit(w *World, r *Report, pfx string) {
 		r.Undecided(pfx+".L-END", "end request", "", "cannot identify the end request")
 		return
 	}
-	// every Return block of the container loop is dominated by a call of endFn; and no end call can reach another
-	var ends []ssa.Instruction
-	for _, b := range cont.Blocks {
-		for _, in := range b.Instrs {
-			if c, ok := in.(*ssa.Call); ok && c.Call.StaticCallee() == endFn {
-				ends = append(ends, in)
-			}
-		}
-	}
-	bad := ""
-	for _, b := range cont.Blocks {
-		ret, ok := b.Instrs[len(b.Instrs)-1].(*ssa.Return)
-		if !ok {
-			continue
-		}
-		if cont.Recover == b {
-			continue
-		}
-		dom := false
-		for _, e := range ends {
-			if instrDominates(e, ret) {
-				dom = true
-			}
-		}
-		if !dom {
-			bad = "the container loop can return (" + w.instrPos(ret) + ") without sending the end request: the heap loop and its channel are never shut down"
-		}
-	}
-	for _, e := range ends {
-		for _, e2 := range ends {
-			if instrReaches(e, e2) {
-				bad = "the end request can be sent twice"
-			}
-		}
-	}
-	if len(ends) == 0 {
+	// every Return of the container loop is dominated by the end request (sent directly or by a
+	// private helper that sends it exactly once on all of its paths), and no end request can reach another
+	bad := endOnce(w, cont, endFn, w.unit(cont), 0)
+	if bad == "" && !endMay(cont, endFn, w.unit(cont), 0) {
 		bad = "the container loop never sends the end request"
 	}
 	r.Check(bad == "", pfx+".L-END", "container loop exit", w.pos(cont.Pos()), "end request sent exactly once before every return", bad)
@@ -1394,4 +1362,79 @@ func (w *World) iterLoops(root *ssa.Function) []iterLoopInfo {
 		}
 	}
 	return out
+}
+
+
+// endMay: fn (or a private helper it calls, depth <= 3) contains a call of target.
+func endMay(fn, target *ssa.Function, unit map[*ssa.Function]bool, depth int) bool {
+	if depth > 3 {
+		return false
+	}
+	for _, b := range fn.Blocks {
+		for _, in := range b.Instrs {
+			c, ok := in.(ssa.CallInstruction)
+			if !ok {
+				continue
+			}
+			if _, isGo := in.(*ssa.Go); isGo {
+				continue
+			}
+			sc := c.Common().StaticCallee()
+			if sc == target || (sc != nil && sc != fn && unit[sc] && endMay(sc, target, unit, depth+1)) {
+				return true
+			}
+		}
+	}
+	return false
+}
+
+// endOnce: "" when every return of fn is dominated by exactly one sending of target (a direct call,
+// or a call of a helper for which the same holds), and no sending can reach another one.
+func endOnce(w *World, fn, target *ssa.Function, unit map[*ssa.Function]bool, depth int) string {
+	var must, may []ssa.Instruction
+	for _, b := range fn.Blocks {
+		for _, in := range b.Instrs {
+			c, ok := in.(*ssa.Call)
+			if !ok {
+				continue
+			}
+			sc := c.Call.StaticCallee()
+			switch {
+			case sc == target:
+				must = append(must, in)
+				may = append(may, in)
+			case sc != nil && sc != fn && unit[sc] && endMay(sc, target, unit, depth+1):
+				may = append(may, in)
+				if depth < 3 && endOnce(w, sc, target, unit, depth+1) == "" {
+					must = append(must, in)
+				}
+			}
+		}
+	}
+	for _, b := range fn.Blocks {
+		ret, ok := b.Instrs[len(b.Instrs)-1].(*ssa.Return)
+		if !ok || fn.Recover == b {
+			continue
+		}
+		dom := false
+		for _, e := range must {
+			if instrDominates(e, ret) {
+				dom = true
+			}
+		}
+		if !dom {
+			if len(may) == 0 {
+				return "the container loop never sends the end request"
+			}
+			return fnShort(fn) + " can return (" + w.instrPos(ret) + ") without sending the end request: the heap loop and its channel are never shut down"
+		}
+	}
+	for _, e := range may {
+		for _, e2 := range may {
+			if instrReaches(e, e2) {
+				return "the end request can be sent twice"
+			}
+		}
+	}
+	return ""
 }
